@@ -22,6 +22,26 @@ WORDS = ["Package", "Source", "Version", "Depends", "X-Foo-Bar", "Maintainer", "
 VALUE_POOL = ["1", "2", "foo (>= 1.0), bar", "x\n continued\n .\n more", "", "a: b", "#no comment", "éà 中"]
 
 
+BOUNDARY = [1, 2, 8, 15, 16, 17, 31, 32, 33, 63, 64, 65, 72, 73, 80, 127, 128, 129, 255, 256, 257, 1023, 1024, 1025, 4095, 4096, 4097]
+
+
+def stretch(rng, base):
+    """size stress: a field name of a boundary length that keeps the base word as prefix (so the
+    lower-case sort order between different base words is unchanged)"""
+    n = rng.choice([x for x in BOUNDARY if 16 <= x <= 300])
+    if n <= len(base) + 1:
+        return base
+    return base + "-" + "x" * (n - len(base) - 1)
+
+
+def big_value(rng):
+    k = rng.choice(BOUNDARY)
+    if rng.random() < 0.5:
+        return "v" * k
+    lines = rng.choice([2, 10, 11, 100, 101])
+    return "first\n" + "\n".join(" line %d %s" % (i, "y" * (k % 90)) for i in range(lines))
+
+
 def spellings(base):
     cap = base
     low = base.lower()
@@ -40,12 +60,16 @@ class Conc:
             chosen = pool[:len(names)]
         else:
             chosen = sorted(rng.sample(pool, len(names)), key=str.lower)
+        if not canonical and rng.random() < 0.15:
+            chosen = [stretch(rng, b) for b in chosen]
         self.base = {n: b for n, b in zip(sorted(names), chosen)}
         vs = sorted(values)
         if canonical:
             cv = VALUE_POOL[:len(vs)]
         else:
             cv = rng.sample(VALUE_POOL, len(vs))
+            if rng.random() < 0.1:
+                cv[0] = big_value(rng)
         self.val = dict(zip(vs, cv))
         self.rval = {v: k for k, v in self.val.items()}
 
@@ -243,7 +267,13 @@ def private_drift(ctx):
 def record_trace(rng, nnames, nops):
     """random history on the real class with a larger alphabet than the model; names are logged
     as ranks in lower-case sort order, spellings/values verbatim"""
-    base = sorted(rng.sample(WORDS, nnames), key=str.lower)
+    if nnames <= len(WORDS):
+        base = sorted(rng.sample(WORDS, nnames), key=str.lower)
+    else:       # size stress: many keys
+        base = sorted(["%s-%03d" % (WORDS[i % len(WORDS)], i) for i in range(nnames)], key=str.lower)
+    if rng.random() < 0.15:
+        base = [stretch(rng, b) for b in base]
+    values = VALUE_POOL + ([big_value(rng)] if rng.random() < 0.2 else [])
     rank = {b.lower(): i + 1 for i, b in enumerate(base)}
 
     def proj(d):
@@ -254,6 +284,9 @@ def record_trace(rng, nnames, nops):
 
     start_kind = rng.choice(["empty", "dict", "parsed"])
     init_n = rng.sample(range(nnames), rng.randint(0, min(4, nnames))) if start_kind != "empty" else []
+    if nnames > 20:          # size stress: start with most of the keys present
+        start_kind = rng.choice(["dict", "parsed"])
+        init_n = rng.sample(range(nnames), (nnames * 9) // 10)
     pairs = []
     for i in init_n:
         pairs.append((rng.choice(list(spellings(base[i]).values())), rng.choice(VALUE_POOL[:4] + VALUE_POOL[5:])))
@@ -275,7 +308,7 @@ def record_trace(rng, nnames, nops):
             j = i
         k1 = rng.choice(list(spellings(base[i]).values()))
         k2 = rng.choice(list(spellings(base[j]).values()))
-        v = rng.choice(VALUE_POOL)
+        v = rng.choice(values)
         d, res = apply_op(d, op, [k1, k2], v)
         if isinstance(res, tuple):
             res = res[1]
@@ -405,6 +438,9 @@ def run(ctx):
     # 4. code -> spec: recorded histories over 8 names x 4 spellings validated by TLC
     ntr, nops = (400, 25) if quick else (6000, 40)
     traces = [record_trace(rng, 8, nops) for _ in range(ntr)]
+    # size stress: many keys, long histories (bulk pre-fill via set operations)
+    for nn, no in ([(40, 120), (120, 300)] if quick else [(40, 120)] * 6 + [(120, 300)] * 6 + [(300, 700)] * 2):
+        traces.append(record_trace(rng, nn, no))
     rejected, info = validate(ctx, traces)
     ctx.traces += n_replayed + len(traces)
     ctx.evaluations += len(traces)
